@@ -565,6 +565,9 @@ class Explorer:
             self.expand(r, prefix, stack)
 
     def account(self, r, prefix):
+        for role, task, ename, msg, tb in r.exceptions:
+            if ename == "HarnessError":
+                raise HarnessError("%s: %s" % (role, msg))
         st = self.stats
         st["executions"] += 1
         st["transitions"] += r.transitions
